@@ -819,6 +819,26 @@ func genOp(g *core.G, h *history, k int) string {
 	if len(cur.Kids) == 1 && !hasInnerSingles(cur) && len(tips) > 3 && g.Chance(0.2) {
 		kind = "prune"
 	}
+	// round 7b: the ROOT TIP named to every edit that finds its node through Parent()/ParentEdge()/NodeIndex or
+	// a tip look-up (on the clean code most of these are refused — a root has no parent — and the history ends;
+	// a shortcut such as "a tip's only branch is its parent branch" makes them succeed on a broken heap)
+	if len(cur.Kids) == 1 && cur.Name != "" && g.Chance(0.15) {
+		rt := cur.Name
+		switch g.Intn(6) {
+		case 0:
+			return "identical:" + core.StrList([]string{rt, fmt.Sprintf("i%dxr", k)})
+		case 1:
+			return "identical:" + core.StrList([]string{fmt.Sprintf("i%dxr", k), rt, fmt.Sprintf("i%dxs", k)})
+		case 2:
+			return "identicalone:" + core.Escape(rt) + ":" + fmt.Sprintf("j%d", k)
+		case 3:
+			return "grafttree:" + core.Escape(rt) + ":" + secondTree(g, fmt.Sprintf("g%dx", k), g.Chance(0.5)).Dump()
+		case 4:
+			return "collapseclade:" + b2s(g.Chance(0.5)) + ":" + fmt.Sprintf("cc%d", k) + ":" + core.StrList([]string{rt})
+		default:
+			return "outgroup:" + b2s(g.Chance(0.3)) + ":" + b2s(g.Chance(0.5)) + ":" + core.StrList([]string{rt})
+		}
+	}
 	// pruning is only required to cope with trees free of single-child inner nodes
 	// (a root with ONE neighbour is a tip, not a single-child inner node: pruning — of the root tip too,
 	// the case repaired by 0cfc52b — is offered on such trees as long as no inner node has a single child)
